@@ -228,7 +228,9 @@ def check_step(nm, res, ev, sweeps, ref, seen, viol, ctx, counters):
             # a hit on a never-stored request: only legitimate if the stored entry is the same result
             counters["hit_on_unseen"] += 1
         if not hit and ("put",) not in ev:
-            viol.append(dict(what="miss_not_stored", request=nm, events=ev, **ctx))
+            # through which method an entry is written is the implementation's business; whether the identical request that follows is
+            # served from the cache decides (the repeat clause above)
+            counters["misses_without_a_put_event"] = counters.get("misses_without_a_put_event", 0) + 1
     if hit and sweeps:
         viol.append(dict(what="hit_but_solved_again", request=nm, sweeps=sweeps, **ctx))
     seen.add(nm)
